@@ -47,6 +47,9 @@ type icache struct {
 }
 
 func (i *icache) set(k string, v Account) {
+	// the key may alias a request buffer that the http server reuses for
+	// later requests (same reason CreateAccount clones the account strings)
+	k = strings.Clone(k)
 	cpy := v
 	i.Lock()
 	i.items[k] = item{
